@@ -6,11 +6,13 @@ reviewed table entry whose required guard is re-checked on every run, or be a
 listed finding."""
 import os
 import re
+from ..core import norm_refs
 from ..core import (callee_of, expr_walk, expr_str, short, op_place, runtime_targets, immediate_targets, MissingAnchor,
                     unwrap_value, const_str)
+from ..pathq import edge_guards, _reach_without_edge
 from ..pathq import bool_branch, cmp_of
 from ..zone import Zone, lin, atom, strip, BITS, UNSIGNED, INF
-from .. import framework as fw
+from .. import framework as fw, inline
 
 EXPLANATION = (
     "Panic-freedom is about which constructs are reachable, so it is decided up to the soundness of the discharge rules. Scope: "
@@ -93,21 +95,71 @@ def scope(fx):
 
 # ---------------------------------------------------------------- facts for a site
 def guard_facts(f, bb):
-    """[(op, a_expr, b_expr)] of comparisons that hold on every path to block bb (from dominating bool branches)"""
-    dom = f.dominators()
+    """[(op, a_expr, b_expr)] of comparisons that hold on every path to block bb: bool branches one of whose edges
+    every path to bb takes (edge dominance: nested ifs and early-return guards alike), and arms of a `match a.cmp(&b)`"""
     out = []
-    neg = {'Ge': 'Lt', 'Gt': 'Le', 'Le': 'Gt', 'Lt': 'Ge', 'Eq': 'Ne', 'Ne': 'Eq'}
-    for b2 in f.reachable_blocks():
-        br = bool_branch(f, b2)
-        if br is None:
-            continue
-        e, tbb, fbb = br
-        t_in = tbb in dom.get(bb, ()) and len(f.pred(tbb)) == 1
-        f_in = fbb in dom.get(bb, ()) and len(f.pred(fbb)) == 1
-        if t_in == f_in:
-            continue
-        for (op, a, b) in conjuncts(f, e, t_in):
+    for (b2, e, side) in edge_guards(f, bb):
+        for (op, a, b) in conjuncts(f, e, side):
             out.append((op, a, b))
+    out += ordering_facts(f, bb)
+    # a >= b together with a != b is a > b
+    ges = [(a, b) for (op, a, b) in out if op == 'Ge'] + [(b, a) for (op, a, b) in out if op == 'Le']
+    nes = [(expr_str(strip(a), -10), expr_str(strip(b), -10)) for (op, a, b) in out if op == 'Ne']
+    for a, b in ges:
+        sa, sb = expr_str(strip(a), -10), expr_str(strip(b), -10)
+        if (sa, sb) in nes or (sb, sa) in nes:
+            out.append(('Gt', a, b))
+    return out
+
+
+ORD_FACT = {frozenset(['Less']): 'Lt', frozenset(['Equal']): 'Eq', frozenset(['Greater']): 'Gt',
+            frozenset(['Less', 'Equal']): 'Le', frozenset(['Equal', 'Greater']): 'Ge', frozenset(['Less', 'Greater']): 'Ne'}
+
+
+def ordering_facts(f, bb):
+    """facts from `match a.cmp(&b) { Less => .., Equal => .., Greater => .. }` arms every path to bb goes through"""
+    out = []
+    for b2 in f.reachable_blocks():
+        t = f.blocks[b2]['term']
+        if t['k'] != 'switch':
+            continue
+        e = f.expr_of_operand(t['discr'])
+        if not (isinstance(e, tuple) and e[0] == 'discr' and e[2] == 'core::cmp::Ordering'):
+            continue
+        c = strip(e[1])
+        if not (isinstance(c, tuple) and c[0] == 'call' and c[1].endswith('::cmp') and len(c[2]) == 2 and ('Ord' in c[1])):
+            continue
+        variants = None
+        for b3 in f.reachable_blocks():
+            for st in f.blocks[b3]['stmts']:
+                if st['k'] == 'assign' and st['rv']['k'] == 'discr' and st['rv'].get('adt') == 'core::cmp::Ordering':
+                    variants = dict(st['rv']['variants'])
+        if not variants:
+            continue
+        by_target = {}
+        named = set()
+        for v, tgt in t['targets']:
+            n = variants.get(v)
+            if n is None:
+                by_target = None
+                break
+            by_target.setdefault(tgt, set()).add(n)
+            named.add(n)
+        if by_target is None:
+            continue
+        rest = {'Less', 'Equal', 'Greater'} - named
+        if rest:
+            by_target.setdefault(t['otherwise'], set()).update(rest)
+        for tgt, names in by_target.items():
+            # every path to bb takes the edge b2 -> tgt and no other edge of this switch
+            others = [x for x in by_target if x != tgt]
+            if _reach_without_edge(f, 0, bb, b2, tgt):
+                continue
+            if not all(_reach_without_edge(f, 0, bb, b2, o) for o in others):
+                continue
+            op = ORD_FACT.get(frozenset(names))
+            if op:
+                out.append((op, c[2][0], c[2][1]))
     return out
 
 
@@ -320,6 +372,11 @@ def upper_by_type(f, e, depth=0):
             return 4
         if n.endswith('::count_ones'):
             return 128
+    if e[0] == 'proj' and tuple(e[2]) == ('as Some', '0') and isinstance(e[1], tuple) and e[1][0] == 'call' and e[1][1].endswith('::next') and e[1][2]:
+        # item of an iterator over a constant integer range, possibly reversed: (a..b), (a..b).rev()
+        hi = _const_range_hi(e[1][2][0])
+        if hi is not None:
+            return hi - 1
     if e[0] == 'proj' and e[2] and e[2][-1] in ('0', '1') and isinstance(e[1], tuple) and e[1][0] == 'call':
         # cut_bits(..) -> (u8, usize<=8) ; iter8 item (u8, u32<=8)
         n = e[1][1]
@@ -329,6 +386,30 @@ def upper_by_type(f, e, depth=0):
         ups = [upper_by_type(f, x, depth + 1) for x in e[1]]
         return max(ups) if ups else INF
     return INF
+
+
+RANGE_ADAPTERS = ('<I as core::iter::traits::collect::IntoIterator>::into_iter', 'core::iter::traits::iterator::Iterator::rev')
+
+
+def _const_range_hi(e):
+    """e is (a reference to) `lo..hi` with constant bounds, seen through into_iter()/rev() only: hi, else None"""
+    hops = 0
+    while isinstance(e, tuple) and hops < 12:
+        hops += 1
+        if e[0] == 'ref':
+            e = e[2]
+        elif e[0] == 'proj' and all(p == '*' for p in e[2]):
+            e = e[1]
+        elif e[0] == 'call' and e[1] in RANGE_ADAPTERS and len(e[2]) == 1:
+            e = e[2][0]
+        elif e[0] == 'agg' and e[1] == 'core::ops::range::Range' and len(e[3]) == 2:
+            lo, hi = e[3]
+            if lo[0] == 'const' and hi[0] == 'const' and isinstance(lo[1].get('v'), int) and isinstance(hi[1].get('v'), int) and 0 <= lo[1]['v'] <= hi[1]['v']:
+                return hi[1]['v']
+            return None
+        else:
+            return None
+    return None
 
 
 def is_tainted(f, e, tainted_params, depth=0):
@@ -406,36 +487,43 @@ def compute_tainted_params(fx, reach):
 
 
 def sig_of(f, exprs):
-    s = ','.join(re.sub(r'\s+', '', expr_str(strip(e), -6))[:48] for e in exprs)
+    s = ','.join(re.sub(r'\s+', '', expr_str(strip(norm_refs(e)), -6))[:48] for e in exprs)
     return s
 
 
 def enumerate_sites(fx, reach):
     """yield dict(fn, bb, kind, sig, operands(expr list), at, term)"""
     for fn in sorted(reach):
-        f = fx.fns[fn]
-        for bb in sorted(f.reachable_blocks()):
-            blk = f.blocks[bb]
-            t = blk['term']
-            if t['k'] == 'assert':
-                kind = t['kind']
-                if kind in ('MisalignedPointerDereference', 'NullPointerDereference'):
+        for s in sites_of(fx.fns[fn]):
+            yield s
+
+
+def sites_of(f, only_blocks=None):
+    fn = f.name
+    for bb in sorted(f.reachable_blocks()):
+        if only_blocks is not None and bb not in only_blocks:
+            continue
+        blk = f.blocks[bb]
+        t = blk['term']
+        if t['k'] == 'assert':
+            kind = t['kind']
+            if kind in ('MisalignedPointerDereference', 'NullPointerDereference'):
+                continue
+            ops = [f.expr_of_operand(o) for o in t['ops']]
+            yield {'fn': fn, 'bb': bb, 'kind': kind, 'ops': ops, 'raw': t['ops'], 'at': t.get('at'), 'term': t, 'exp': t.get('exp'),
+                   'cond': f.expr_of_operand(t['cond'])}
+        elif t['k'] == 'call':
+            c = callee_of(t) or ''
+            if c in PRECOND:
+                ops = [f.expr_of_operand(o) for o in t['args']]
+                yield {'fn': fn, 'bb': bb, 'kind': 'call:' + PRECOND[c] + ':' + short(c).split('::')[-1], 'ops': ops, 'raw': t['args'], 'at': t.get('at'),
+                       'term': t, 'callee': c, 'exp': t.get('exp')}
+            elif c.startswith(PANIC_CALLS):
+                if any(p in c for p in ('slice_', 'str::slice_error')):
                     continue
-                ops = [f.expr_of_operand(o) for o in t['ops']]
-                yield {'fn': fn, 'bb': bb, 'kind': kind, 'ops': ops, 'raw': t['ops'], 'at': t.get('at'), 'term': t, 'exp': t.get('exp'),
-                       'cond': f.expr_of_operand(t['cond'])}
-            elif t['k'] == 'call':
-                c = callee_of(t) or ''
-                if c in PRECOND:
-                    ops = [f.expr_of_operand(o) for o in t['args']]
-                    yield {'fn': fn, 'bb': bb, 'kind': 'call:' + PRECOND[c] + ':' + short(c).split('::')[-1], 'ops': ops, 'raw': t['args'], 'at': t.get('at'),
-                           'term': t, 'callee': c, 'exp': t.get('exp')}
-                elif c.startswith(PANIC_CALLS):
-                    if any(p in c for p in ('slice_', 'str::slice_error')):
-                        continue
-                    ops = [f.expr_of_operand(o) for o in t['args']]
-                    yield {'fn': fn, 'bb': bb, 'kind': 'panic:' + c.split('::')[-1], 'ops': ops, 'raw': t['args'], 'at': t.get('at'), 'term': t,
-                           'callee': c, 'exp': t.get('exp')}
+                ops = [f.expr_of_operand(o) for o in t['args']]
+                yield {'fn': fn, 'bb': bb, 'kind': 'panic:' + c.split('::')[-1], 'ops': ops, 'raw': t['args'], 'at': t.get('at'), 'term': t,
+                       'callee': c, 'exp': t.get('exp')}
 
 
 def auto_discharge(fx, f, s, tainted_params):
@@ -625,6 +713,10 @@ def discharge_call(fx, f, s, tainted_params):
             return None
         if k2 == 'str-index' and 'RangeFull' in expr_str(ops[-1], -4):
             return 'D-CONST', 'full range'
+        if k2 == 'str-index' and s['fn'].startswith('lex::Lex::'):
+            r = cursor_range(fx, f, s)
+            if r:
+                return 'D-CURSOR', r
         if k2 in ('index', 'swap', 'remove') and len(ops) >= 2:
             la = len_atom_for(z, ops[0])
             if la is None:
@@ -649,6 +741,128 @@ def discharge_call(fx, f, s, tainted_params):
                 return 'D-ZONE', 'index/range within len by %s' % gtxt[:3]
             return None
     return None
+
+
+CURSOR_FIELDS = ('pos', 'start_pos')
+
+
+def _upvar_expr(fx, closure, idx):
+    """(parent Fn, expression captured as upvar idx of the closure) or None"""
+    parent = closure.rsplit('::{closure', 1)[0]
+    pf = fx.fns.get(parent)
+    if pf is None:
+        return None
+    for bb in pf.reachable_blocks():
+        for st in pf.blocks[bb]['stmts']:
+            if st['k'] == 'assign' and st['rv']['k'] == 'agg' and st['rv'].get('ak') == 'closure' and st['rv'].get('closure') == closure:
+                fs = st['rv']['fields']
+                if idx < len(fs):
+                    return pf, pf.expr_of_operand(fs[idx])
+    return None
+
+
+def cursor_value(fx, f, e, depth=0, seen=()):
+    """is e, on every path, a value that Lex.pos held at some earlier moment (a read of self.pos / self.start_pos,
+    a copy of one, a parameter every caller fills with one, a closure capture of one)?  By C16.R2 such a value is a
+    char boundary of buf, <= buf.len(), and not greater than the current pos (pos only grows)."""
+    e = strip(e)
+    if depth > 6 or not isinstance(e, tuple):
+        return False
+    if e[0] == 'phi':
+        return all(cursor_value(fx, f, x, depth + 1, seen) for x in e[1])
+    inner = '::{closure' in f.name
+    if e[0] == 'proj':
+        path = [p for p in e[2] if p != '*']
+        base = strip(e[1])
+        if path and path[-1] in CURSOR_FIELDS and isinstance(base, tuple) and base[0] == 'arg' and base[1] == 1:
+            if not inner and len(path) == 1:
+                return True                                   # self.pos / self.start_pos
+            if inner and len(path) == 2 and path[0].isdigit():
+                up = _upvar_expr(fx, f.name, int(path[0]))    # captured `self`
+                return up is not None and _is_self(up[1])
+        if inner and isinstance(base, tuple) and base[0] == 'arg' and base[1] == 1 and len(path) == 1 and path[0].isdigit():
+            up = _upvar_expr(fx, f.name, int(path[0]))        # captured local (c_pos)
+            return up is not None and cursor_value(fx, up[0], up[1], depth + 1, seen)
+        return False
+    if e[0] == 'arg' and not inner and e[1] >= 2 and f.name.startswith('lex::Lex::'):
+        key = (f.name, e[1])
+        if key in seen:
+            return True
+        sites = []
+        for caller in sorted(fx.callers().get(f.name, ())):
+            cf = fx.fns.get(caller)
+            if cf is None:
+                return False
+            for bb, t in cf.calls():
+                if callee_of(t) == f.name:
+                    sites.append((cf, t))
+        if not sites:
+            return False
+        return all(len(t['args']) >= e[1] and cursor_value(fx, cf, cf.expr_of_operand(t['args'][e[1] - 1]), depth + 1, seen + (key,)) for cf, t in sites)
+    return False
+
+
+def _is_self(e):
+    e = strip(e)
+    return isinstance(e, tuple) and e[0] == 'arg' and e[1] == 1
+
+
+def cursor_range(fx, f, s):
+    """buf[a..], buf[a..pos] on the lexer's own buffer with cursor values as bounds"""
+    ops = s['ops']
+    b0 = strip(ops[0])
+    # the indexed string is self.buf (directly, or through the captured self of a closure)
+    bs = expr_str(b0, -12)
+    if not bs.endswith('.buf'):
+        return None
+    rng = strip(ops[-1])
+    if not (isinstance(rng, tuple) and rng[0] == 'agg'):
+        return None
+    if 'RangeFrom' in str(rng[1]) and len(rng[3]) == 1:
+        if cursor_value(fx, f, rng[3][0]):
+            return 'buf[a..] with a an earlier value of the cursor: a char boundary <= len (C16.R2)'
+        return None
+    if str(rng[1]).endswith('::Range') and len(rng[3]) == 2:
+        a, b = rng[3]
+        if cursor_value(fx, f, a) and _current_pos(f, s, b):
+            return 'buf[a..pos] with a an earlier value of the cursor and pos read at the site: boundaries, a <= pos <= len (C16.R2)'
+    return None
+
+
+def _current_pos(f, s, b):
+    """the end bound is self.pos read in the block of the call itself (no step can lie between the read and the use)"""
+    b = strip(b)
+    if not (isinstance(b, tuple) and b[0] == 'proj' and [p for p in b[2] if p != '*'] == ['pos'] and _is_self(b[1])):
+        return False
+    if '::{closure' in f.name:
+        return False
+    # find the raw Range aggregate feeding the call and require its end operand to be defined in the same block
+    t = s['term']
+    p = op_place(t['args'][-1])
+    if p is None:
+        return False
+    blk = f.blocks[s['bb']]
+    agg = None
+    for st in blk['stmts']:
+        if st['k'] == 'assign' and st['lhs']['l'] == p['l'] and not st['lhs']['p'] and st['rv']['k'] == 'agg':
+            agg = st['rv']
+    if agg is None:
+        return False
+    endp = op_place(agg['fields'][-1])
+    if endp is None:
+        return False
+    if endp['p']:
+        return _pname(endp['p'][-1]) == 'pos'      # the field place itself
+    for st in blk['stmts']:
+        if st['k'] == 'assign' and st['lhs']['l'] == endp['l'] and not st['lhs']['p'] and st['rv']['k'] == 'use':
+            q = op_place(st['rv']['o'])
+            if q is not None and q['p'] and _pname(q['p'][-1]) == 'pos':
+                return True
+    return False
+
+
+def _pname(p):
+    return p.get('f') if isinstance(p, dict) else p
 
 
 def _is_string_target(f, x):
@@ -677,6 +891,7 @@ def run(rep, facts, tier):
     tainted_params = compute_tainted_params(fx, reach)
     table = load_table()
     used = set()
+    vocab = inline.rule_vocabulary()
     n_sites = 0
     by_rule = {}
     seen_keys = {}
@@ -686,26 +901,15 @@ def run(rep, facts, tier):
         sig = sig_of(f, s['ops'])
         key = site_key(s['fn'], s['kind'], sig)
         # identical keys (same function, same operation on the same operands) are one obligation
-        res = auto_discharge(fx, f, s, tainted_params)
-        if res is None and (s['kind'].startswith('call:') or s['kind'].startswith('panic:')):
-            res = discharge_call(fx, f, s, tainted_params)
+        res, stale_guard = try_discharge(fx, f, s, key, tainted_params, table, used)
+        if res is None and stale_guard is None:
+            res = discharge_in_callers(fx, s, tainted_params, table, used, vocab)
         taint = any(is_tainted(f, o, tainted_params) for o in s['ops'])
-        if res is None and key in table:
-            needs, reason = table[key]
-            used.add(key)
-            ok_needs = True
-            if needs and needs.startswith('@'):
-                ok_needs = PREDICATES[needs](fx)
-            elif needs and needs != '-':
-                _, gtxt = build_zone(f, s['bb'], s['ops'])
-                hay = ' ; '.join(gtxt) + ' ; ' + ' ; '.join(_calls_dominating(f, s['bb']))
-                ok_needs = all(n_.strip() in hay for n_ in needs.split('&&'))
-            if ok_needs:
-                res = ('D-REVIEWED', reason + ('' if needs in ('', '-') else ' [guard re-checked: %s]' % needs))
-            else:
-                rep.add('C08', key, False, 'reviewed discharge no longer valid: required guard `%s` does not dominate the site any more (%s)' % (needs, reason),
-                        s['fn'], s['at'])
-                continue
+        if res is None and stale_guard is not None:
+            needs, reason = stale_guard
+            rep.add('C08', key, False, 'reviewed discharge no longer valid: required guard `%s` does not dominate the site any more (%s)' % (needs, reason),
+                    s['fn'], s['at'])
+            continue
         if res is not None:
             by_rule[res[0]] = by_rule.get(res[0], 0) + 1
             rep.add('C08', key, True, '%s: %s' % res, s['fn'], s['at'], nontrivial=res[0] not in ('D-CONST',))
@@ -722,6 +926,66 @@ def run(rep, facts, tier):
     rep.extra['sites_enumerated'] = n_sites
     rep.extra['tainted_params'] = len(tainted_params)
     rep.extra['reviewed_table_entries'] = len(table)
+
+
+def try_discharge(fx, f, s, key, tainted_params, table, used):
+    """-> ((rule, why) | None, (needs, reason) | None): automatic rules first, then the reviewed table with its guard re-checked"""
+    res = auto_discharge(fx, f, s, tainted_params)
+    if res is None and (s['kind'].startswith('call:') or s['kind'].startswith('panic:')):
+        res = discharge_call(fx, f, s, tainted_params)
+    if res is None and key in table:
+        needs, reason = table[key]
+        used.add(key)
+        ok_needs = True
+        if needs and needs.startswith('@'):
+            ok_needs = PREDICATES[needs](fx)
+        elif needs and needs.startswith('?gt:'):
+            # semantic guard: the facts on every path to the site prove  X > Y  for the atoms containing the two texts
+            xa, ya = needs.split(':')[1], needs.split(':')[2]
+            z, gtxt = build_zone(f, s['bb'], s['ops'])
+            xs = [n_ for n_ in z.nodes if xa in n_ and not n_.startswith(('Sub(', 'Add('))]
+            ys = [n_ for n_ in z.nodes if ya in n_ and not n_.startswith(('Sub(', 'Add('))]
+            ok_needs = any(z.lower(x_, y_) >= 1 for x_ in xs for y_ in ys)
+        elif needs and needs != '-':
+            _, gtxt = build_zone(f, s['bb'], s['ops'])
+            hay = ' ; '.join(gtxt) + ' ; ' + ' ; '.join(_calls_dominating(f, s['bb']))
+            ok_needs = all(n_.strip() in hay for n_ in needs.split('&&'))
+        if ok_needs:
+            return ('D-REVIEWED', reason + ('' if needs in ('', '-') else ' [guard re-checked: %s]' % needs)), None
+        return None, (needs, reason)
+    return res, None
+
+
+def discharge_in_callers(fx, s, tainted_params, table, used, vocab):
+    """A site in a private helper that no rule or table entry names is judged where the helper is used: the helper is
+    spliced into each caller and the site must be discharged there (automatic rules, or the caller's reviewed entry -
+    the key a site had before it was moved into the helper)."""
+    fn = s['fn']
+    if fn in vocab or '{closure' in fn:
+        return None
+    callers = sorted(c for c in fx.callers().get(fn, ()) if c in fx.fns)
+    if not callers or len(callers) > 6:
+        return None
+    whys = []
+    for caller in callers:
+        vf = inline.inline_fn(fx, fx.fns[caller], lambda n: n == fn, depth=1)
+        spl = [off for (c, off, cb) in getattr(vf, 'splices', []) if c == fn]
+        if not spl:
+            return None      # referenced but not called directly (function value): cannot judge in context
+        for off in spl:
+            hit = False
+            for s2 in sites_of(vf, {off + s['bb']}):
+                if s2['kind'] != s['kind']:
+                    continue
+                hit = True
+                key2 = site_key(caller, s2['kind'], sig_of(vf, s2['ops']))
+                res, stale = try_discharge(fx, vf, s2, key2, tainted_params, table, used)
+                if res is None:
+                    return None
+                whys.append('%s: %s' % (short(caller), res[0]))
+            if not hit:
+                return None
+    return 'D-CALLER', 'helper judged in each caller with its arguments substituted (%s)' % '; '.join(sorted(set(whys)))
 
 
 def _next_nonws_filters(fx):
